@@ -63,6 +63,10 @@ func runC01(c *Ctx) bool {
 			return d, append([]string{"\x00given"}, n...)
 		})
 	}
+	extremes = append(extremes, func() ([]int, []string) {
+		d, n := gen.LongDup()
+		return d, append([]string{"\x00given"}, n...)
+	})
 	for k, mk := range extremes {
 		idx := base + k
 		if !c.Mine(idx) {
